@@ -146,7 +146,7 @@ func (id *issuerID) bundleSMT(doc []byte, signed, carried *core.Claim, asType st
 	if err != nil {
 		return nil, "", err
 	}
-	if err := id.claims.Add(bg, hi, hv); err != nil {
+	if err := id.claims.Add(bg, hi, hv); err != nil && err != merkletree.ErrEntryIndexAlreadyExists {
 		return nil, "", err
 	}
 	ctr := id.claims.Root().BigInt()
@@ -393,8 +393,8 @@ func (g *gen) generateE2E(schs []*schemaInfo) {
 			mods := fieldMods(slots)
 			if g.cfg.Thorough() && si < 2 {
 				mods = append(mods, allBitFlips(slots)...)
-			} else {
-				mods = append(mods, sampledFlips(slots, g.cfg.Rng, 2)...)
+			} else if si == 0 {
+				mods = append(mods, sampledFlips(slots, g.cfg.Rng, 1)...)
 			}
 			for mi, m := range mods {
 				in := g.base(sch, sp, o, "e2e")
